@@ -40,6 +40,19 @@ use std::fmt;
 #[derive(Clone, Copy, Eq, Hash, PartialEq, PartialOrd, Ord)]
 pub struct Ttl(u32);
 
+impl Ttl {
+    /// Creates a `Ttl` holding `raw` exactly, without the
+    /// [RFC 2181 § 8] interpretation. This is only for writing the TTL
+    /// field of pseudo-RRs that repurpose it (the EDNS OPT record
+    /// stores the upper bits of the extended RCODE there), which is why
+    /// it is not part of the public API.
+    ///
+    /// [RFC 2181 § 8]: https://datatracker.ietf.org/doc/html/rfc2181#section-8
+    pub(crate) fn from_raw_pseudo_rr_field(raw: u32) -> Self {
+        Self(raw)
+    }
+}
+
 impl From<u32> for Ttl {
     fn from(raw: u32) -> Self {
         if raw > i32::MAX as u32 {
